@@ -8,10 +8,23 @@ import numpy as np
 from harness import numeric, par
 
 
+SCALES = [(1.0, 0.0), (2.0 ** -20, 0.0), (2.0 ** 20, 3.0 * 2.0 ** 20)]   # exact in binary64; the hull is similarity invariant
+
+
 def _replay_line(b):
+    out = []
+    for sc, off in SCALES:
+        for clause, detail in _replay_scaled(b, sc, off):
+            out.append((clause, dict(detail, scale=sc, offset=off)))
+        if out:
+            break
+    return out
+
+
+def _replay_scaled(b, sc, off):
     import kneeliverse.convex_hull as ch
     bad = []
-    P = np.array(b["pts"], float)
+    P = np.array(b["pts"], float) * sc + off
     mode = b["mode"]
     fn = {"lower": ch.graham_scan_lower, "upper": ch.graham_scan_upper, "graham": ch.graham_scan}[mode]
     try:
@@ -52,7 +65,8 @@ def run(ctx):
                 "the brute-force hull and emits each behaviour for replay.  non-trivial: chain drops at least one point, "
                 "or the point set has a non-extreme point / is in general position with >= 4 points")
     ctx.assumptions += ["coordinates are small integers, so the orientation predicate is exact in binary64",
-                        "graham_scan start vertex: lexicographic (x,y) minimum as in the code; a rotation starting at the (y,x) minimum is tolerated"]
+                        "graham_scan start vertex: lexicographic (x,y) minimum as in the code; a rotation starting at the (y,x) minimum is tolerated",
+                        "every behaviour is also replayed scaled by 2^-20 and by 2^20 (+3*2^20 translation): exact in binary64, same hull"]
     ctx.mc("Hull", "MC_Hull_unguarded", expect="NoUnderflow")
     ctx.mc("Hull", "MC_Hull_small", need_actions=("ChainPop", "ChainPush", "GrahamSort", "GrahamPop", "GrahamPush", "Return"))
     beh = ctx.gen("Hull", "Gen_Hull_quick" if ctx.quick else "Gen_Hull_thorough", timeout=3000)
